@@ -321,3 +321,41 @@ def check_oom_last_resort(ctx, F, rule="E-FREELIST.lastresort"):
                                 "%d of %d OutOfMemory exit(s) can be reached without consulting the shared free lists: after the "
                                 "slot array has been exhausted once, slots freed by gc are never found again" % (len(bad), len(errs))))
     return n
+
+
+def check_guard_handover(ctx, F, rule="E-FREELIST.handover"):
+    """When a thread's session on a store ends (`LocalStoreStateGuard::drop`), whatever is parked in the thread-local
+    state -- a free list, a partially used chunk, a node-count delta -- must go back to the shared store through
+    `return_preallocated`; the next session starts from a zeroed local state.  The call may be skipped only when all
+    three cells were inspected: every path from the entry of the drop closure to its return that avoids
+    `return_preallocated` passes a `Cell::get` on each of `next_free`, `initialized` and `node_count_delta`."""
+    n = 0
+    for fid, m in sorted(F.mir.items()):
+        if not (fid.startswith("oxidd_manager_index::manager::") and "LocalStoreStateGuard" in F.nice(fid) and "::drop" in fid):
+            continue
+        B = cfg.Body(m)
+        rp = [i for i, t in B.calls() if (cfg.callee_name(t) or "").endswith("::return_preallocated")]
+        if not rp:
+            continue
+        n += 1
+        gets = {}
+        for i, t in B.calls():
+            if (cfg.callee_name(t) or "").endswith("Cell::<T>::get"):
+                f = cell_field(B, m, t)
+                if f:
+                    gets.setdefault(f, set()).add(i)
+        exits = [i for i in B.exits() if not m["blocks"][i]["c"]] if hasattr(B, "exits") else []
+        missing = []
+        for f in ("next_free", "initialized", "node_count_delta"):
+            avoid = set(rp) | gets.get(f, set())
+            reach = B.reachable_from(0, avoid=avoid)
+            if any(e in reach for e in exits) or not gets.get(f):
+                missing.append(f)
+        ctx.ob(rule, rule + ":LocalStoreStateGuard::drop", not missing,
+               "%s (%s): %s" % (F.nice(fid), F.where(fid),
+                                "return_preallocated is skipped only after next_free, initialized and node_count_delta were all "
+                                "inspected" if not missing else
+                                "the session can end without return_preallocated although the thread-local `%s` was never looked "
+                                "at: what is parked there (free slots / a count delta) is lost when the next session zeroes the "
+                                "local state" % "`, `".join(missing)))
+    return n
